@@ -43,6 +43,8 @@ InitSim ==
        /\ items = IF seeded # 1 THEN {}
                   ELSE {[t |-> "t2:V1", o |-> 8, r |-> "V1", d |-> "top", n |-> "a", date |-> 0]}
                        \cup (IF cfg.top["V1"] = "sticky" THEN {[t |-> "t1:V1", o |-> 9, r |-> "V1", d |-> "top", n |-> "b", date |-> 0]} ELSE {})
+                       \* ... and another user's entry beside them: nobody's business unless --all-users is given
+                       \cup {[t |-> "o2:V1", o |-> 7, r |-> "V1", d |-> "d", n |-> "a", date |-> 0]}
        /\ strays = IF seeded # 2 THEN {}
                    ELSE {[t |-> "home", id |-> 1, r |-> "R", d |-> "top", n |-> "a", date |-> 0],
                          [t |-> "t2:V1", id |-> 2, r |-> "V1", d |-> "top", n |-> "b", date |-> 0]}
@@ -72,6 +74,7 @@ SimStep ==
                           \cup {[k |-> "idx", idx |-> <<i, j>>] : i \in 0 .. n - 1, j \in 0 .. n - 1}) :
           Restore(f, "none", sort, reply, FALSE)
   \/ \E days \in Pick({-1, 0, 1, 2}) : Empty([days |-> days, dry |-> FALSE, consent |-> "auto", td |-> "none"])
+  \/ \E days \in Pick({-1, 1}) : cfg.xdg # "set" /\ Empty([days |-> days, dry |-> FALSE, consent |-> "auto", td |-> "all"])
   \/ \E p \in [k : {"name"}, n : Names] \cup [k : {"path"}, r : {"R", "V1"}, d : {"d"}, n : {"a"}] : Rm(p)
   \/ Tick
   \/ \E l \in Pick(SimLocs), o \in Objs : Create(l.r, l.d, l.n, o)
